@@ -465,6 +465,14 @@ def run(F, R, tier):
                 "%s() is not (only) derived from get_key(): %s - a second copy of the %s can go stale when the key is cleared or replaced"
                 % (nm, sorted(map(str, org)), fld))
 
+    # every state change the loop requests reaches the actor: the wrappers enqueue with an awaited send and await the reply (a full queue
+    # delays the key keeper, it never makes it skip "install the new rules" after the new rule id was already recorded)
+    from lib import contracts
+    for nm in ("set_wireserver_rules", "set_imds_rules", "set_hostga_rules", "set_wireserver_rule_id", "set_imds_rule_id", "set_hostga_rule_id",
+               "get_wireserver_rule_id", "get_imds_rule_id", "get_hostga_rule_id", "set_secure_channel_state", "get_current_secure_channel_state",
+               "set_key", "get_key"):
+        contracts.reliable_round_trip(F, R, "C09.R2", KW + "KeyKeeperSharedState::" + nm, "KeyKeeperSharedState::" + nm)
+
     # the change detector must read every status field a redirect decision reads (otherwise a flip of that field alone is never acted on)
     from lib import deps
     det = set()
